@@ -586,6 +586,25 @@ func genC04(o *Out, rng *rand.Rand, tier string) {
 			emit(append(append([]byte(nil), hdr...), area...), "exact-size-areas")
 		}
 	}
+	// (b0') a dozen and more instances of a few codes in arbitrary order (an implementation that gathers and groups them
+	// must keep each code's instances in order of appearance, however many there are)
+	for _, cnt := range []int{11, 12, 13, 14, 17, 20, 33, 40, 64, 100} {
+		for rep := 0; rep < 3; rep++ {
+			w := append([]byte(nil), hdr...)
+			for k := 0; k < cnt; k++ {
+				code := []byte{43, 60, 82, 1, 43, 200}[rng.Intn(6)]
+				n := 1 + rng.Intn(4)
+				w = append(w, code, byte(n))
+				for j := 0; j < n; j++ {
+					w = append(w, byte(k*8+j))
+				}
+				if rng.Intn(6) == 0 {
+					w = append(w, 0)
+				}
+			}
+			emit(append(w, 255), "many-instances-mixed")
+		}
+	}
 	// (b1) one option in very many instances: totals around and beyond what 16 bits count (larger than any datagram;
 	// the decoder takes any byte string), and hundreds of tiny instances
 	for _, spec := range [][2]int{{257, 255}, {258, 255}, {259, 255}, {300, 255}, {300, 1}, {1000, 0}, {700, 3}} {
